@@ -1558,7 +1558,7 @@ def gen_chain(rng):
         if rng.random() < 0.5:
             main.append(("assign", ("field", "a"), [], ("call", "f", [("field", "a")]), False))
         main.append(("assign", ("oos", "n"), [], ("bin", "+", ("coal", ("oos", "n"), ("int", 0)), ("int", 1)), False))
-        end = [[("emit1", ("maplit", [(("str", "verb"), ("int", i)), (("str", "n"), ("oos", "n"))]))]]
+        end = [[("emit1", ("maplit", [(("str", "a"), ("int", rng.randint(0, 5))), (("str", "b"), ("int", rng.randint(0, 5))), (("str", "verb"), ("int", i)), (("str", "n"), ("oos", "n"))]))]]
         if last and rng.random() < 0.5:
             main.append(("print", ("hof", "apply", arr, ("named", "f"), None)))
         p = {"funcs": [f, g, pr, cmpf], "begin": [], "main": main, "end": end}
